@@ -1091,6 +1091,11 @@ func Resolve(v ssa.Value) []ssa.Value { return ResolveFrom(v, nil) }
 // ResolveFrom is Resolve with local variables resolved along paths starting after stop.
 func ResolveFrom(v ssa.Value, stop ssa.Instruction) []ssa.Value { return resolveFrom(v, stop, nil) }
 
+// ResolveFromCut is ResolveFrom along paths that do not use the cut edges.
+func ResolveFromCut(v ssa.Value, stop ssa.Instruction, cut map[Edge]bool) []ssa.Value {
+	return resolveFrom(v, stop, cut)
+}
+
 func resolveFrom(v ssa.Value, stop ssa.Instruction, cut map[Edge]bool) []ssa.Value {
 	var out []ssa.Value
 	seen := map[ssa.Value]bool{}
